@@ -2,8 +2,8 @@ import Orx.IW.StepInv
 namespace Orx.IW
 
 theorem inv_init (s : Script) (ps : Nat → List Req) (hok : ∀ t, ∀ r ∈ ps t, ReqOk r) : Inv s (init ps) := by
-  constructor <;> simp [init, Pc.ticket, Pc.inCS, Pc.acc] <;> first | exact hok | (intros; trivial) | skip
-  all_goals (intro _ i hi; omega)
+  constructor <;> simp [init, Pc.ticket, Pc.inCS, Pc.acc, Pc.recording] <;> first | exact hok | (intros; trivial) | skip
+  all_goals (first | (intro _ i hi; omega) | (intro i hi; omega))
 
 /-- the reserved counter never decreases -/
 theorem step_R_mono (s : Script) (t : Nat) (c : Cfg) : c.R ≤ (step s t c).R := by
@@ -16,7 +16,7 @@ theorem run_R_mono (s : Script) (σ : List Nat) (c : Cfg) : c.R ≤ (run s σ c)
   | cons t ts ih => simp only [run]; exact Nat.le_trans (step_R_mono s t c) (ih _)
 
 /-- `NoWrap`: the cumulative number of reserved positions stays below `2^64` (the quantifier of C01/C05) -/
-theorem inv_run {s : Script} (hf : Fused s) (σ : List Nat) {c : Cfg} (h : Inv s c) (hW : (run s σ c).R < W) :
+theorem inv_run {s : Script} (σ : List Nat) {c : Cfg} (h : Inv s c) (hW : (run s σ c).R < W) :
     Inv s (run s σ c) := by
   induction σ generalizing c with
   | nil => simpa [run]
@@ -24,12 +24,12 @@ theorem inv_run {s : Script} (hf : Fused s) (σ : List Nat) {c : Cfg} (h : Inv s
     simp only [run] at hW ⊢
     have h1 : (step s t c).R < W := Nat.lt_of_le_of_lt (run_R_mono s ts _) hW
     have h0 : c.R < W := Nat.lt_of_le_of_lt (step_R_mono s t c) h1
-    exact ih (step_inv hf h h0 t) hW
+    exact ih (step_inv h h0 t) hW
 
 /-- every configuration reachable from `init ps` by any schedule satisfies the invariant -/
-theorem inv_reach (s : Script) (hf : Fused s) (ps : Nat → List Req) (hok : ∀ t, ∀ r ∈ ps t, ReqOk r)
+theorem inv_reach (s : Script) (ps : Nat → List Req) (hok : ∀ t, ∀ r ∈ ps t, ReqOk r)
     (σ : List Nat) (hW : (run s σ (init ps)).R < W) : Inv s (run s σ (init ps)) :=
-  inv_run hf σ (inv_init s ps hok) hW
+  inv_run σ (inv_init s ps hok) hW
 
 /-- the word-level step agrees with the ideal one while the counters stay below `2^64` -/
 theorem stepW_eq (s : Script) (t : Nat) (c : Cfg) (hR : (step s t c).R < W) (hY : (step s t c).Y < W) :
